@@ -99,6 +99,12 @@ MUTANTS = {
     'log_dm_first_segment_only': (P + 'os_log_event.py', "for seg in decomposed['seg']]", "for seg in decomposed['seg'][:1]]", ['C16']),
     'log_bt_reversed': (P + 'os_log_event.py', "                for level in event.pop('bt')", "                for level in reversed(event.pop('bt'))", ['C16']),
     'log_local_time': (P + 'os_log_event.py', "                                                           tz=timezone.utc)", "                                                           tz=None).replace(tzinfo=timezone.utc)", ['C16']),
+    'cli_sub_as_class': (P + '__main__.py', "    parser.filter_class = class_filters\n    parser.filter_subclass = subclass_filters\n    parser.filter_tid = tid\n    parser.show_tid = show_tid\n    print_with_count(parser.formatted_kevents(kdebug_dump), count)",
+                         "    parser.filter_class = class_filters\n    parser.filter_subclass = class_filters\n    parser.filter_tid = tid\n    parser.show_tid = show_tid\n    print_with_count(parser.formatted_kevents(kdebug_dump), count)", ['C12']),
+    'cli_traces_no_process': (P + '__main__.py', "    parser.filter_process = process\n    parser.filter_class = list(class_filters)", "    parser.filter_class = list(class_filters)", ['C13']),
+    'cli_logs_ignore_tid': (P + '__main__.py', "    parser = PyKdebugParser()\n    parser.filter_tid = tid\n    parser.filter_process = process\n    parser.show_tid = show_tid\n    print_with_count(parser.formatted_logs(kdebug_dump), count)",
+                            "    parser = PyKdebugParser()\n    parser.filter_process = process\n    parser.show_tid = show_tid\n    print_with_count(parser.formatted_logs(kdebug_dump), count)", ['C12']),
+    'log_filter_by_name_only': (P + 'pykdebugparser.py', "filter(lambda e: self.filter_process in (e.process, str(e.process_identifier)),", "filter(lambda e: self.filter_process == e.process,", ['C12']),
 }
 
 
